@@ -29,6 +29,187 @@ EXPLANATION = (
 )
 
 
+# name of a portfolio entry -> the class that implements it.  Confirmed by reading pybads/search/es_search.py (ESSearchWM:
+# weighted covariance matrix, ESSearchELL: GP length-scale ellipsoid) and the option text of ``search_method``.
+STRATEGY_CLASS = {"ES-wcm": "ESSearchWM", "ES-ell": "ESSearchELL"}
+
+
+def _strategy_dispatch_rule(ctx, prog, hcall, es):
+    """R11: the strategy object that generates the candidates is built from the class that the *name* of the drawn portfolio
+    entry stands for.  Decided forms: a construction under ``name == "<lit>"`` guards; a table ``CLASSES[NAMES.index(name)]``
+    / ``{"<lit>": Class}[name]``.  Selecting the class by the portfolio position of the draw, or under the wrong name, fails;
+    any other form is undecided."""
+    import copy
+
+    from .common import deref_expr
+
+    fnode = hcall.node
+    attr_defs = {}
+    for t, v, s_, k in iter_stores(fnode):
+        a = self_attr_of(t)
+        if a is not None and v is not None and k == "assign":
+            attr_defs.setdefault(a, []).append((v, s_))
+
+    def expand(e, at, depth=0):
+        """locals and once-stored self attributes replaced by their definitions"""
+        d = deref_expr(prog, hcall, e)
+
+        class A(ast.NodeTransformer):
+            def visit_Attribute(self, node):
+                self.generic_visit(node)
+                a = self_attr_of(node)
+                if a is not None and isinstance(node.ctx, ast.Load) and len(attr_defs.get(a, [])) == 1 and depth < 3:
+                    v, s_ = attr_defs[a][0]
+                    if pos(s_) < pos(at) and a != "chosen_hedge" and a != "search_fcns":
+                        return expand(copy.deepcopy(v), s_, depth + 1)
+                return node
+
+        return A().visit(d)
+
+    def strip_idx(t: str) -> str:
+        for _ in range(3):
+            if t.endswith(".item()"):
+                t = t[: -len(".item()")]
+            elif t.startswith("int(") and t.endswith(")"):
+                t = t[4:-1]
+            elif t.endswith("[0]") and t.startswith("self.chosen_hedge"):
+                t = t[:-3]
+        return t
+
+    def is_draw(e, at) -> bool:
+        return strip_idx(canon(expand(e, at))) == "self.chosen_hedge"
+
+    def is_name(e, at) -> bool:
+        x = expand(e, at)
+        if isinstance(x, ast.Subscript) and const_num(x.slice) == 0 and isinstance(x.value, ast.Subscript) and canon(x.value.value) == "self.search_fcns":
+            return strip_idx(canon(x.value.slice)) == "self.chosen_hedge"
+        return False
+
+    def str_table(e):
+        """a literal tuple / list of strings reachable like a class table -> list of str"""
+        fake = ast.Subscript(value=e, slice=ast.Constant(value=0), ctx=ast.Load())
+        # reuse the table lookup by resolving the literal by hand
+        lit = None
+        if isinstance(e, (ast.Tuple, ast.List)):
+            lit = e
+        elif isinstance(e, ast.Name):
+            defs = [n.value for n in ast.walk(fnode) if isinstance(n, ast.Assign) and len(n.targets) == 1 and isinstance(n.targets[0], ast.Name) and n.targets[0].id == e.id]
+            if len(defs) == 1:
+                lit = defs[0]
+            elif not defs:
+                for st in hcall.module.node.body:
+                    if isinstance(st, ast.Assign) and len(st.targets) == 1 and isinstance(st.targets[0], ast.Name) and st.targets[0].id == e.id:
+                        lit = st.value
+        elif isinstance(e, ast.Attribute) and isinstance(e.value, ast.Name) and hcall.cls is not None:
+            owner = hcall.cls if e.value.id in ("self", "cls") or e.value.id == hcall.cls.name else None
+            if owner is not None:
+                for c in owner.mro():
+                    hit = [st.value for st in c.node.body if isinstance(st, ast.Assign) and len(st.targets) == 1 and isinstance(st.targets[0], ast.Name) and st.targets[0].id == e.attr]
+                    if hit:
+                        lit = hit[-1]
+                        break
+        if isinstance(lit, (ast.Tuple, ast.List)) and lit.elts and all(isinstance(x, ast.Constant) and isinstance(x.value, str) for x in lit.elts):
+            return [x.value for x in lit.elts]
+        return None
+
+    def name_guards(st):
+        """{literal: polarity} for the conjuncts ``name == lit`` / ``name != lit`` / ``name in (lits)`` that guard st"""
+        out = []
+        for t, pol in guard_of(prog, hcall, st):
+            for c, p in conjuncts(t, pol):
+                if isinstance(c, ast.Compare) and len(c.ops) == 1:
+                    l, r = c.left, c.comparators[0]
+                    if isinstance(l, ast.Constant) and isinstance(l.value, str):
+                        l, r = r, l
+                    if isinstance(r, ast.Constant) and isinstance(r.value, str) and isinstance(c.ops[0], (ast.Eq, ast.NotEq)) and is_name(l, st):
+                        out.append((r.value, p == isinstance(c.ops[0], ast.Eq)))
+        return out
+
+    def classes_of(k, at, depth=0):
+        """the class expression k of a construction ``k(...)`` -> list of (verdict, text); verdict True / False / None"""
+        r = prog.resolve_name_expr(hcall.module, k) if isinstance(k, (ast.Name, ast.Attribute)) else None
+        st = at
+        if r is not None and not isinstance(r, (FunctionInfo, tuple)) and hasattr(r, "mro"):
+            if es.cls not in r.mro():
+                return [(None, f"{canon(k)} is not a search strategy class")]
+            g = name_guards(st)
+            pos_l = [l for l, p in g if p]
+            neg_l = [l for l, p in g if not p]
+            want = [n for n, c in STRATEGY_CLASS.items() if c == r.name]
+            if pos_l:
+                ok = all(STRATEGY_CLASS.get(l) == r.name for l in pos_l)
+                return [(ok, f"{r.name} built under name == {pos_l[0]!r}")]
+            if neg_l and want and set(neg_l) >= set(STRATEGY_CLASS) - set(want):
+                return [(True, f"{r.name} built when the name is none of {sorted(neg_l)}")]
+            if neg_l and want and set(want) & set(neg_l):
+                return [(False, f"{r.name} built under name != {want[0]!r}")]
+            return [(None, f"{r.name} built without a test of the drawn entry's name")]
+        ct = prog.class_table(hcall, k)
+        if ct is not None:
+            cls_l, keys, lit = ct
+            sel = k.slice if isinstance(k, ast.Subscript) else k.args[0]
+            if keys is not None:
+                if not all(isinstance(x, ast.Constant) and isinstance(x.value, str) for x in keys):
+                    return [(None, "class table keyed by non-literals")]
+                bad = [(x.value, c.name) for x, c in zip(keys, cls_l) if STRATEGY_CLASS.get(x.value, c.name) != c.name]
+                if bad:
+                    return [(False, f"the class table maps {bad[0][0]!r} to {bad[0][1]}")]
+                if is_name(sel, at):
+                    return [(True, "class table keyed by the drawn entry's name")]
+                if is_draw(sel, at):
+                    return [(False, "class table indexed by the portfolio position of the draw, not by the entry's name")]
+                return [(None, f"class table indexed by {canon(sel)}")]
+            if is_draw(sel, at):
+                return [(False, "the strategy class is selected by the portfolio position of the draw, not by the drawn entry's name")]
+            sx = expand(sel, at)
+            if isinstance(sx, ast.Call) and isinstance(sx.func, ast.Attribute) and sx.func.attr == "index" and len(sx.args) == 1 and is_name(sx.args[0], at):
+                names = str_table(sx.func.value)
+                if names is not None and len(names) == len(cls_l):
+                    bad = [(n, c.name) for n, c in zip(names, cls_l) if STRATEGY_CLASS.get(n, c.name) != c.name]
+                    if bad:
+                        return [(False, f"the class table pairs {bad[0][0]!r} with {bad[0][1]}")]
+                    return [(True, "class table indexed by the position of the drawn entry's name in the aligned name table")]
+                return [(None, "name table not a literal aligned with the class table")]
+            return [(None, f"class table indexed by {canon(sel)}")]
+        if isinstance(k, ast.Name) and depth < 2:
+            out = []
+            for t, v, s_, kind in iter_stores(fnode):
+                if isinstance(t, ast.Name) and t.id == k.id and v is not None and kind == "assign":
+                    out.extend(classes_of(v, s_, depth + 1))
+            if out:
+                return out
+        return [(None, f"strategy class expression {canon(k)} not recognised")]
+
+    calls = [c for c in ast.walk(fnode) if isinstance(c, ast.Call) and es in [x for x in prog.resolve_call(hcall, c) if isinstance(x, FunctionInfo)]]
+    if not calls:
+        ctx.undecided("no call of a strategy's __call__ resolved inside the hedge")
+        return
+    seen = set()
+    for c in calls:
+        f = c.func
+        cons = []
+        if isinstance(f, ast.Name):
+            for t, v, s_, kind in iter_stores(fnode):
+                if isinstance(t, ast.Name) and t.id == f.id and isinstance(v, ast.Call) and kind == "assign":
+                    cons.append((v, s_))
+        elif isinstance(f, ast.Call):
+            cons.append((f, c))
+        if not cons:
+            ctx.undecided(f"the strategy object {canon(f)} is not constructed inside the hedge call")
+            continue
+        for v, s_ in cons:
+            if id(v) in seen:
+                continue
+            seen.add(id(v))
+            for verdict, text in classes_of(v.func, s_):
+                if verdict is True:
+                    ctx.ok(hcall, s_, text)
+                elif verdict is False:
+                    ctx.fail(hcall, s_, f"the strategy that generates the candidates is not the one the hedge drew: {text}", construct=f"strategy dispatch: {text[:70]}")
+                else:
+                    ctx.undecided(f"strategy dispatch at line {getattr(s_, 'lineno', '?')}: {text}")
+
+
 def _hedge_reward_rule(ctx, prog, hcls):
     """prob = f(exp(beta * (g - max g))): one non-finite score makes every probability NaN.  The scores are only ever
     updated by ``g[i] = decay * g[i] + er / phat[i] / mesh``; each definition of the reward ``er`` that depends on a quantity
@@ -461,6 +642,10 @@ def check(ctx):
     # ------------------------------------------------------------------ R7
     ctx.rule("R7", "every reward added to the hedge scores is finite: GP-predicted quantities are used only under finiteness guards", floor=2)
     _hedge_reward_rule(ctx, prog, hcall.cls)
+
+    # ------------------------------------------------------------------ R11
+    ctx.rule("R11", "the strategy that generates the candidates is the class the drawn portfolio entry's name stands for", floor=2)
+    _strategy_dispatch_rule(ctx, prog, hcall, es)
 
     from .common import helper_purity
 
